@@ -199,6 +199,13 @@ type editProc struct {
 	cloneAt  int // -1: no clone; otherwise clone after ops[:cloneAt]
 	onClone  bool
 	cloneObs *observation
+	sched    []schedStep      // alias scenario: interleaved edits of original and clone after the clone
+	trace    [][2]observation // (original, clone) after every schedule step
+}
+
+type schedStep struct {
+	OnClone bool
+	Op      op
 }
 
 func (p *editProc) OnEmit(_ context.Context, r *sdklog.Record) error {
@@ -212,6 +219,17 @@ func (p *editProc) OnEmit(_ context.Context, r *sdklog.Record) error {
 		o.apply(r)
 	}
 	c := r.Clone()
+	if p.sched != nil {
+		for _, st := range p.sched {
+			if st.OnClone {
+				st.Op.apply(&c)
+			} else {
+				st.Op.apply(r)
+			}
+			p.trace = append(p.trace, [2]observation{observe(r), observe(&c)})
+		}
+		return nil
+	}
 	target := r
 	if p.onClone {
 		target = &c
@@ -232,12 +250,18 @@ type program struct {
 	Ops            []op  // edits made by the processor
 	CloneAt        int
 	OnClone        bool
+	Sched          []schedStep
 }
 
 // run emits one record through [editProc, SimpleProcessor(exporter)].
 func run(p program) (exported observation, cloneObs *observation, err error) {
+	ex, ed, err := runProc(p)
+	return ex, ed.cloneObs, err
+}
+
+func runProc(p program) (exported observation, ed *editProc, err error) {
 	exp := &recExporter{}
-	ed := &editProc{ops: p.Ops, cloneAt: p.CloneAt, onClone: p.OnClone}
+	ed = &editProc{ops: p.Ops, cloneAt: p.CloneAt, onClone: p.OnClone, sched: p.Sched}
 	lp := sdklog.NewLoggerProvider(
 		sdklog.WithProcessor(ed),
 		sdklog.WithProcessor(sdklog.NewSimpleProcessor(exp)),
@@ -250,9 +274,9 @@ func run(p program) (exported observation, cloneObs *observation, err error) {
 	rec.AddAttributes(buildKVs(p.Init)...)
 	lp.Logger("c17").Emit(context.Background(), rec)
 	if len(exp.got) != 1 {
-		return exported, nil, fmt.Errorf("exporter received %d records", len(exp.got))
+		return exported, ed, fmt.Errorf("exporter received %d records", len(exp.got))
 	}
-	return exp.got[0], ed.cloneObs, nil
+	return exp.got[0], ed, nil
 }
 
 // ---------------------------------------------------------------- generators
@@ -416,7 +440,7 @@ func main() {
 	w.Rule = "programs of SetAttributes/AddAttributes calls issued from a Processor's OnEmit on a record emitted with 0-7 attributes, over an 8-key pool " +
 		"(duplicates within and across calls, crossing the 5-slot inline array), nested slice/map values three deep with duplicate inner keys, " +
 		"strings from a UTF-8 piece alphabet, count limits {-1,0,1..8,128} x value-length limits {-1,0,1,2,3,5,10}, observed at an Exporter via WalkAttributes/" +
-		"AttributesLen/DroppedAttributes; clone cases edit the original (or the clone) after Clone and observe both; non-trivial = something was dropped, overwritten or truncated"
+		"AttributesLen/DroppedAttributes; clone cases edit the original (or the clone) after Clone and observe both; alias cases run an interleaved edit script on original and clone and compare both after every step with the aliasing model; non-trivial = something was dropped, overwritten or truncated"
 
 	guard := func(desc any, f func()) {
 		defer func() {
@@ -541,6 +565,76 @@ func main() {
 	}
 	for i := o.Count(6, 100); i > 0; i-- {
 		addProgram(bigProgram(r), "record-128")
+	}
+
+	// ---- aliasing: Clone, then an interleaved edit script on original and clone, both observed after every step ----
+	for i := o.Count(300, 6000); i > 0; i-- {
+		p := genProgram(r)
+		fresh := 300
+		if r.Chance(3, 4) { // overflow slice in use at the clone
+			first := op{Set: true}
+			for j, n := 0, r.Range(6, 8); j < n; j++ {
+				first.Attrs = append(first.Attrs, kvd{K: keyPool[j], V: genValue(r, 1)})
+			}
+			p.CntLim = vgen.Pick(r, []int{-1, 128, 8, 9, 12, 7})
+			p.Ops = append(p.Ops, first)
+			if r.Bool() {
+				p.Ops = append(p.Ops, op{Attrs: genAttrs(r, 4, &fresh, 8)})
+			}
+		}
+		p.CloneAt = len(p.Ops)
+		p.Sched = []schedStep{}
+		for j, n := 0, r.Range(1, 6); j < n; j++ {
+			p.Sched = append(p.Sched, schedStep{OnClone: r.Bool(), Op: op{Set: r.Chance(1, 8), Attrs: genAttrs(r, 6, &fresh, 8)}})
+		}
+		all := make([]op, 0, len(p.Init)+len(p.Ops))
+		for _, a := range p.Init {
+			all = append(all, op{Attrs: []kvd{a}})
+		}
+		all = append(all, p.Ops...)
+		var od, ops1, sch, tr []string
+		for _, x := range all {
+			od = append(od, x.String())
+			ops1 = append(ops1, x.coq())
+		}
+		for _, st := range p.Sched {
+			who := "original"
+			if st.OnClone {
+				who = "clone"
+			}
+			od = append(od, "after Clone, on the "+who+": "+st.Op.String())
+			sch = append(sch, vgen.Pair(vgen.Bool(st.OnClone), st.Op.coq()))
+		}
+		desc := map[string]any{"count_limit": p.CntLim, "value_length_limit": p.LenLim, "ops": od}
+		guard(desc, func() {
+			ex, ed, err := runProc(p)
+			if err != nil {
+				w.Violation(err.Error(), desc)
+				return
+			}
+			if len(ed.trace) != len(p.Sched) {
+				w.Violation("schedule was not run to the end", desc)
+				return
+			}
+			var td []string
+			for _, t := range ed.trace {
+				if !t[0].LenOK || !t[1].LenOK {
+					w.Violation("AttributesLen differs from the number of attributes walked", desc)
+					return
+				}
+				tr = append(tr, vgen.Pair(t[0].coq(), t[1].coq()))
+				td = append(td, fmt.Sprintf("original %s dropped %d | clone %s dropped %d", descKVs(t[0].Attrs), t[0].Dropped, descKVs(t[1].Attrs), t[1].Dropped))
+			}
+			last := ed.trace[len(ed.trace)-1][0]
+			if len(last.Attrs) != len(ex.Attrs) || last.Dropped != ex.Dropped {
+				w.Violation("the record at the exporter differs from the record at the end of OnEmit", desc)
+				return
+			}
+			desc["observed_after_each_step"] = td
+			w.Tally("alias")
+			w.Tally(fmt.Sprintf("alias:steps=%d", len(p.Sched)))
+			w.Add(vgen.App("CAlias", vgen.Z(int64(p.LenLim)), vgen.Z(int64(p.CntLim)), vgen.List(ops1), vgen.List(sch), vgen.List(tr)), desc, "alias", true)
+		})
 	}
 
 	if err := w.Flush(); err != nil {
